@@ -162,6 +162,130 @@ fn big_scenario(sizes: &[u64], large: &[bool], dirs: u64, comment: &[u8], method
 }
 
 
+/// What the three readers must report for one entry of a `z64.pos` archive.
+struct PosEntry { name: String, data: Vec<u8>, large: bool }
+
+fn pos_entries(n: usize, large: u64, seed: u64) -> Vec<PosEntry> {
+    let mut r = super::rng_for(seed, "z64.pos", 0);
+    (0..n).map(|i| {
+        let len = 1 + r.below(300) as usize;
+        // non-zero, mildly compressible content (a wrapped offset that lands on zero fill or on another
+        // entry's header cannot reproduce it)
+        let alpha = r.bytes(7);
+        let data: Vec<u8> = (0..len).map(|_| alpha[r.below(7) as usize] | 1).collect();
+        PosEntry { name: format!("p{i}-{}", "x".repeat(r.below(9) as usize)), data, large: (large >> i) & 1 == 1 }
+    }).collect()
+}
+
+/// Write `es` through the crate's writer over a sparse sink that was positioned on `start` BEFORE
+/// `ZipWriter::new` (all recorded offsets are absolute positions of the sink, so `start` puts the first header
+/// on any 32-bit boundary at no cost).  Returns the sink.
+fn pos_write(es: &[PosEntry], start: u64, method: u16, comment: &[u8]) -> Result<Sparse, String> {
+    let mut sink = Sparse::new();
+    sink.seek(SeekFrom::Start(start)).map_err(|e| format!("seek:{}", ioerr_class(&e)))?;
+    let mut w = zip::ZipWriter::new(sink);
+    #[allow(deprecated)]
+    let o = zip::write::FileOptions::default().compression_method(zip::CompressionMethod::from_u16(method)).last_modified_time(zip::DateTime::default());
+    for e in es {
+        w.start_file(e.name.clone(), o.large_file(e.large)).map_err(|x| format!("start {}:{}", e.name, zerr_class(&x)))?;
+        w.write_all(&e.data).map_err(|x| format!("write {}:{}", e.name, ioerr_class(&x)))?;
+    }
+    w.set_raw_comment(comment.to_vec());
+    w.finish().map_err(|x| format!("finish:{}", zerr_class(&x)))
+}
+
+/// The window `[start, len)` of the sink and the strict parser's view of it (offsets in the view are positions
+/// in the window; + `start` = recorded value).
+fn pos_strict(sink: &mut Sparse, start: u64) -> Result<crate::strict::StrictView, String> {
+    let mut win = vec![];
+    sink.seek(SeekFrom::Start(start)).map_err(|e| format!("seek:{}", ioerr_class(&e)))?;
+    sink.read_to_end(&mut win).map_err(|e| format!("window:{}", ioerr_class(&e)))?;
+    // a directory offset / entry count of EXACTLY the marker value without ZIP64 records is the literal value
+    // (APPNOTE 4.4.24 reads it as a marker only "if an archive is in ZIP64 format"): a warning, not an error
+    let o = crate::strict::StrictOpts { window_base: start, sentinel_requires_zip64: false, ..Default::default() };
+    crate::strict::strict_check(&win, &o).map_err(|e| format!("strict parser: {}", e.join("; ")))
+}
+
+/// B2: a header offset / directory offset on every 32-bit boundary.  `which` = index of the entry whose local
+/// header must sit exactly on `target` (`which` = number of entries: the central directory starts there).
+/// Checked through ZipArchive, the stream reader (from `start`) and the independent strict parser: names,
+/// contents, CRC, sizes and EVERY offset (a wrapped offset landing on another header does not pass).
+fn pos_scenario(target: u64, which: usize, n: usize, large: u64, method: u16, seed: u64, comment: &[u8]) -> String {
+    let comment = comment.to_vec();
+    let r = catch(move || -> Result<String, String> {
+        let es = pos_entries(n, large, seed);
+        // dry run at 0: relative offsets from the strict parser (the compressed sizes are the encoder's business)
+        let mut dry = pos_write(&es, 0, method, &comment)?;
+        let dv = pos_strict(&mut dry, 0).map_err(|e| format!("dry run: {e}"))?;
+        if dv.entries.len() != n { return Err(format!("dry run: {} entries", dv.entries.len())); }
+        let rel: Vec<u64> = dv.entries.iter().map(|e| e.header_offset).chain(std::iter::once(dv.cd_offset)).collect();
+        let start = target.checked_sub(rel[which]).ok_or("target below the relative offset")?;
+        let mut sink = pos_write(&es, start, method, &comment)?;
+        let total = sink.seek(SeekFrom::End(0)).unwrap();
+        // (1) strict parser on the live window
+        let sv = pos_strict(&mut sink, start)?;
+        if sv.entries.len() != n { return Err(format!("strict parser: {} entries, {n} written", sv.entries.len())); }
+        if sv.comment != comment { return Err("strict parser: comment differs".into()); }
+        let cd_abs = sv.cd_offset + start;
+        if cd_abs != start + rel[n] { return Err(format!("central directory at {cd_abs}, expected {}", start + rel[n])); }
+        if sv.zip64 != (cd_abs > 0xFFFF_FFFF) { return Err(format!("ZIP64 end records present = {}, directory offset {cd_abs}", sv.zip64)); }
+        for (i, (e, v)) in es.iter().zip(sv.entries.iter()).enumerate() {
+            let abs = v.header_offset + start;
+            if abs != start + rel[i] { return Err(format!("strict parser: entry {i} header at {abs}, expected {}", start + rel[i])); }
+            if v.name != e.name.as_bytes() || v.local_name != e.name.as_bytes() { return Err(format!("strict parser: entry {i} name differs")); }
+            if v.uncompressed_size != e.data.len() as u64 || v.crc != crc32fast::hash(&e.data) { return Err(format!("strict parser: entry {i} size/crc differs")); }
+            if v.decoded != Some((crc32fast::hash(&e.data), e.data.len() as u64)) { return Err(format!("strict parser: entry {i} does not decode to the written bytes")); }
+            // the ZIP64 record carries the offset exactly when it does not fit (D8: >= the marker value)
+            let z: Vec<&(u16, Vec<u8>)> = v.central_extra.iter().filter(|r| r.0 == 1).collect();
+            if (abs >= 0xFFFF_FFFF) != (z.len() == 1) { return Err(format!("entry {i} at {abs}: {} central ZIP64 records", z.len())); }
+            if abs >= 0xFFFF_FFFF && z[0].1 != abs.to_le_bytes() { return Err(format!("entry {i}: central ZIP64 record {} does not hold the offset {abs}", hex(&z[0].1))); }
+        }
+        if which < n && sv.entries[which].header_offset + start != target { return Err("target missed".into()); }
+        if which == n && cd_abs != target { return Err("target missed".into()); }
+        // (2) the stream reader, from `start`
+        sink.seek(SeekFrom::Start(start)).unwrap();
+        for (i, e) in es.iter().enumerate() {
+            let mut f = match zip::read::read_zipfile_from_stream(&mut sink) {
+                Ok(Some(f)) => f,
+                Ok(None) => return Err(format!("stream reader: ends before entry {i}")),
+                Err(x) => return Err(format!("stream reader: entry {i}: {}", zerr_class(&x))),
+            };
+            if f.name() != e.name || f.size() != e.data.len() as u64 { return Err(format!("stream reader: entry {i} name/size differs")); }
+            let mut got = vec![];
+            f.read_to_end(&mut got).map_err(|x| format!("stream reader: entry {i} read: {}", ioerr_class(&x)))?;
+            if got != e.data { return Err(format!("stream reader: entry {i} content differs")); }
+        }
+        match zip::read::read_zipfile_from_stream(&mut sink) {
+            Ok(None) => {}
+            Ok(Some(_)) => return Err("stream reader: an entry after the last".into()),
+            Err(x) => return Err(format!("stream reader: after the last entry: {}", zerr_class(&x))),
+        }
+        // (3) the seekable reader
+        let mut a = zip::ZipArchive::new(sink).map_err(|x| format!("reopen:{}", zerr_class(&x)))?;
+        if a.len() != n { return Err(format!("count {} != {n}", a.len())); }
+        if a.comment() != &comment[..] { return Err("comment differs".into()); }
+        if a.offset() != 0 { return Err(format!("archive offset {} (all offsets are absolute)", a.offset())); }
+        let mut prev_central = start + rel[n];
+        for (i, e) in es.iter().enumerate() {
+            let mut f = a.by_index(i).map_err(|x| format!("entry {i}: {}", zerr_class(&x)))?;
+            if f.name() != e.name { return Err(format!("entry {i}: name `{}` != `{}`", f.name(), e.name)); }
+            if f.header_start() != start + rel[i] { return Err(format!("entry {i}: header_start {} != {}", f.header_start(), start + rel[i])); }
+            let ds = start + rel[i] + 30 + e.name.len() as u64 + if e.large { 20 } else { 0 };
+            if f.data_start() != ds { return Err(format!("entry {i}: data_start {} != {ds}", f.data_start())); }
+            if ds + f.compressed_size() != start + rel[i + 1] { return Err(format!("entry {i}: data end {} != next record {}", ds + f.compressed_size(), start + rel[i + 1])); }
+            if f.central_header_start() != prev_central { return Err(format!("entry {i}: central_header_start {} != {prev_central}", f.central_header_start())); }
+            prev_central += 46 + e.name.len() as u64 + sv.entries[i].central_extra.iter().map(|r| 4 + r.1.len() as u64).sum::<u64>();
+            if f.size() != e.data.len() as u64 || f.crc32() != crc32fast::hash(&e.data) { return Err(format!("entry {i}: size/crc differs")); }
+            let mut got = vec![];
+            f.read_to_end(&mut got).map_err(|x| format!("entry {i} read: {}", ioerr_class(&x)))?;
+            if got != e.data { return Err(format!("entry {i}: content differs")); }
+        }
+        let _ = total;
+        Ok("roundtrip".into())
+    });
+    match r { Ok(Ok(s)) => s, Ok(Err(e)) => format!("FAIL {e}"), Err(m) => format!("FAIL panic {m}") }
+}
+
 /// The COMPRESSED-size guard of an entry not declared large: Deflate level 0 emits stored blocks (5 bytes of
 /// overhead per 65535 bytes), so `usize` zero bytes just below 4 GiB compress to MORE than 0xFFFFFFFF bytes
 /// while the uncompressed counter never trips.  Closing the entry must fail; whatever the caller does next
@@ -202,7 +326,7 @@ impl Stream for Z64 {
 
     fn gen(&self, seed: u64, tier: &str) -> GenOut {
         let mut g = GenOut::default();
-        g.rule = "z64.central: all triples of boundary values (0, 2^16, 2^32 neighbours, 5 GiB, 2^63, 2^64 neighbours) for (usize, csize, header offset) + random 64-bit triples, with and without further extra data; z64.end: boundary/random (count, size, offset); z64.local: local header with/without large_file; z64.big (oracle only): real archives over a sparse sink with entries of 2^32-2..2^32+1 and 5 GiB bytes, >65535 entries, with/without large_file and comment. non-trivial = some field needs ZIP64".into();
+        g.rule = "z64.central: all triples of boundary values (0, 2^16, 2^32 neighbours, 5 GiB, 2^63, 2^64 neighbours) for (usize, csize, header offset) + random 64-bit triples, with and without further extra data; z64.end: boundary/random (count, size, offset); z64.local: local header with/without large_file; z64.pos (oracle only): the sparse sink is positioned before ZipWriter::new so that a local header or the central directory sits exactly on 2^32-2..2^32+1 / 5 GiB (large_file on/off, stored/deflated non-zero contents; ZipArchive + stream reader + independent strict parser; names, contents and every offset checked); z64.big (oracle only): real archives over a sparse sink with entries of 2^32-2..2^32+1 and 5 GiB bytes, >65535 entries, with/without large_file and comment. non-trivial = some field needs ZIP64".into();
         for &us in EDGE.iter() { for &cs in EDGE.iter() { for &hs in EDGE.iter() {
             g.push("central.edge", format!("z64.central us={us} cs={cs} hs={hs} extra=- name=61 m=0"));
         }}}
@@ -248,6 +372,25 @@ impl Stream for Z64 {
                     // second entry behind it: its header offset needs ZIP64; exact-marker size next to it (D8)
                     g.push("big.offset", format!("z64.big sizes={sz},{} large={lg},0 dirs=1 comment=78", t - 1));
                 }
+            }
+        }
+        // B2: the sink is positioned before ZipWriter::new, so that the local header of entry `which` (or the
+        // central directory, which = n) sits exactly on 2^32-2 .. 2^32+1 / 5 GiB; small NON-ZERO stored and
+        // deflated entries, large_file on/off per entry; all three readers, names, contents and offsets checked
+        {
+            let t = 1u64 << 32;
+            let mut r = super::rng_for(seed, "z64.pos", 1);
+            for &target in &[t - 2, t - 1, t, t + 1, 5 * (1u64 << 30)] {
+                for which in 0..=3usize { for method in [0u16, 8] { for lg in [0u64, 7, 8] {
+                    let large = if lg == 8 { r.below(8) } else { lg };
+                    let comment = if r.chance(1, 2) { "-" } else { "706f73" };
+                    g.push("pos.boundary", format!("z64.pos target={target} which={which} n=3 large={large} method={method} seed={} comment={comment}", r.below(1 << 20)));
+                }}}
+            }
+            for _ in 0..(if tier == "thorough" { 2000 } else { 100 }) {
+                let n = 1 + r.below(5) as usize;
+                let target = match r.below(3) { 0 => t - 40 + r.below(80), 1 => r.below(1 << 40), _ => 0xFFFF_FFFF - 2 + r.below(5) };
+                g.push("pos.random", format!("z64.pos target={} which={} n={n} large={} method={} seed={} comment=-", target.max(1 << 20), r.below(n as u64 + 1), r.below(1 << n), *r.pick(&[0u16, 8]), r.below(1 << 20)));
             }
         }
         // the COMPRESSED-size guard (Deflate level 0 = stored blocks: 4 GiB - 100000 zero bytes compress to more
@@ -312,14 +455,14 @@ impl Stream for Z64 {
                 });
                 r.unwrap_or_else(|_| "panic".into())
             }
-            "z64.big" | "z64.cguard" => "oracle-only".into(),
+            "z64.big" | "z64.cguard" | "z64.pos" => "oracle-only".into(),
             _ => "bad-op".into(),
         }
     }
 
     fn nontrivial(&self, line: &str, _resp: &str) -> bool {
         let (_, a) = parse_line(line);
-        ["us", "cs", "hs", "size", "off"].iter().any(|k| get_u64(&a, k).map(|v| v >= 0xFFFFFFFF).unwrap_or(false)) || line.starts_with("z64.big") || line.starts_with("z64.cguard")
+        ["us", "cs", "hs", "size", "off"].iter().any(|k| get_u64(&a, k).map(|v| v >= 0xFFFFFFFF).unwrap_or(false)) || line.starts_with("z64.big") || line.starts_with("z64.cguard") || line.starts_with("z64.pos")
     }
 
     fn oracle(&self, line: &str, resp: &str) -> Vec<OracleFailure> {
@@ -343,6 +486,10 @@ impl Stream for Z64 {
                 let large: Vec<bool> = parse_list(a.get("large").map(|s| s.as_str()).unwrap_or("-")).iter().map(|v| *v == 1).collect();
                 let res = big_scenario(&sizes, &large, n("dirs"), &get_hex(&a, "comment").unwrap_or_default(), n("method") as u16);
                 if res.starts_with("FAIL") { f.push(OracleFailure { what: format!("sparse-sink scenario: {res}") }); }
+            }
+            "z64.pos" => {
+                let res = pos_scenario(n("target"), n("which") as usize, n("n") as usize, n("large"), n("method") as u16, n("seed"), &get_hex(&a, "comment").unwrap_or_default());
+                if res.starts_with("FAIL") { f.push(OracleFailure { what: format!("positioned sparse sink: {res}") }); }
             }
             "z64.cguard" => {
                 let res = cguard_scenario(n("usize"), n("extra"));
